@@ -312,7 +312,7 @@ def run(ctx):
         "a silent peer is modelled by the stall deadline firing (Read returns a timeout when its script is exhausted)",
         "the code between two I/O calls of one direction is atomic with respect to the other direction "
         "(validated with -race in the thorough tier, not proved)",
-        "goroutine lifetime of the asynchronous source closer when Close blocks is measured (goroutine delta), not proved",
+        "goroutine lifetime of the asynchronous source closer when Close blocks is modelled (the closer is a thread of the LTS: C05_no_goroutine_left_behind) and measured on the code (goroutine delta)",
         "the in-package Go driver, the case generator and the JSON->Gallina emitter are trusted",
     ]
     ctx.cov["trusted_base"] = [
